@@ -564,6 +564,60 @@ func stalledReconnect(c *ctx, k int) {
 		"pre": pre, "obs0": obs0, "steps": h.steps})
 }
 
+// doubleFailure: two stream failures back to back while the sender is stuck in Send on the first stream: the receiver
+// reconnects (stream 2 is published, nobody has taken it yet), stream 2 fails as well, the receiver reconnects again
+// (stream 3) and has to hand it over too. When the sender comes back it must end up on the LIVE stream, stream 3, and
+// re-subscribe there (C04).
+func doubleFailure(c *ctx) {
+	w, err := newWorld(worldOpts{ndsNotRequired: true, fetchTimeout: time.Millisecond})
+	if err != nil {
+		fmt.Println("hist: world:", err)
+		return
+	}
+	defer w.close()
+	h := &histRun{c: c, w: w}
+	pre := []interface{}{obj{"o": "startup-lds", "stamp": inboundStamp}}
+	obs0 := h.observe(0)
+	var res string
+	h.step(obj{"o": "get", "rt": "cds", "n": "c1"}, func() { res = w.get(rtOf("cds"), "c1") })
+	h.steps[len(h.steps)-1].(obj)["obs"].(obj)["get"] = res
+	h.step(obj{"o": "push", "rt": "cds", "v": "v1", "nonce": "n1", "slots": slotsJSON([][3]string{{"good", "c1", "c1#1"}})}, func() {
+		w.feed(mkResp(urlOf("cds"), "v1", "n1", []*anypb.Any{anyStamped("cds", "c1", "c1#1")}))
+	})
+	gate := make(chan struct{})
+	w.ads.mu.Lock()
+	w.ads.streams[len(w.ads.streams)-1].sendGate = gate
+	w.ads.mu.Unlock()
+	h.step(obj{"o": "double-failure", "rt": "cds", "first": "s0"}, func() {
+		_ = w.get(rtOf("cds"), "s0") // its request is taken by the sender, which blocks in Send
+		w.waitFor(func() bool { return w.m.VerifQueueLen() == 0 }, 5*time.Second)
+		w.feedErr(errors.New("verif: stream reset"))
+		w.waitFor(func() bool {
+			w.ads.mu.Lock()
+			defer w.ads.mu.Unlock()
+			return len(w.ads.streams) == 2 && w.ads.streams[1].waiting
+		}, 10*time.Second)
+		w.feedErr(errors.New("verif: stream reset again"))
+		// the receiver closes stream 2, creates stream 3 and tries to hand it over (the hand-off slot is still occupied)
+		w.waitFor(func() bool {
+			w.ads.mu.Lock()
+			defer w.ads.mu.Unlock()
+			return len(w.ads.streams) == 3
+		}, 10*time.Second)
+		time.Sleep(20 * time.Millisecond)
+		w.ads.mu.Lock()
+		for _, s := range w.ads.streams {
+			s.sendGate = nil
+		}
+		w.ads.mu.Unlock()
+		close(gate)
+	})
+	uni := obj{"lds": []string{xdsresource.ReservedLdsResourceName}, "rds": []string{}, "cds": []string{"c1"}, "eds": []string{}}
+	c.count("double-failure", 1)
+	c.emit(obj{"op": "hist", "cfg": obj{"nds": false, "ns": "default", "dom": "cluster.local"}, "universe": uni,
+		"pre": pre, "obs0": obs0, "steps": h.steps})
+}
+
 // outage: the stream fails and stream creation keeps failing for more than one whole reconnect budget (the back-off
 // policy is replaced by a 3-attempt constant one through a verif hook); cached resources stay served meanwhile; when
 // the control plane is reachable again the client must open a new stream and re-subscribe (C04).
@@ -687,6 +741,7 @@ func init() {
 		for i := 0; i < 6*c.budget && !c.expired(); i++ {
 			stalledReconnect(c, 1+i%2)
 		}
+		doubleFailure(c)
 		outage(c, 1, 0)
 		outage(c, 3, 0)
 		outage(c, 1, 1040)
